@@ -76,6 +76,10 @@ TDict(kt, vt)  == T("dict", <<kt, vt>>)
 TDC(fields)    == T("dc", fields)           \* dataclass: a sequence of <<name text, type, default value>>
 TReg(name)     == T("reg", <<name>>)        \* a registered type of jsonargparse/typing.py, see RegSer / AdaptReg
 TAny           == T("any", << >>)           \* typing.Any
+\* round 5: ORDER-SENSITIVE mappings and bare / heterogeneous sets
+TODict(kt, vt) == T("odict", <<kt, vt>>)     \* typing.OrderedDict[kt, vt] (collections.OrderedDict): the value is [k |-> "odict", v |-> SEQUENCE of pairs], compared IN ORDER
+TSetB          == T("setb", << >>)          \* bare `set`: the members are not adapted
+ODictV(ps)     == [k |-> "odict", v |-> ps]
 LeafC == {"str", "int", "float", "bool", "none"}
 
 UpperCase == <<"A","B","C","D","E","F","G","H","I","J","K","L","M","N","O","P","Q","R","S","T","U","V","W","X","Y","Z">>
@@ -100,6 +104,7 @@ PyEq(a, b) ==
   ELSE IF a.k \in ScalarKinds THEN a.v = b.v
   ELSE IF a.k \in {"list", "tuple"} THEN Len(a.v) = Len(b.v) /\ \A i \in 1..Len(a.v) : PyEq(a.v[i], b.v[i])
   ELSE IF a.k = "set" THEN Len(a.v) = Len(b.v) /\ \A i \in 1..Len(a.v) : \E j \in 1..Len(b.v) : PyEq(a.v[i], b.v[j])
+  ELSE IF a.k = "odict" THEN Len(a.v) = Len(b.v) /\ \A i \in 1..Len(a.v) : PyEq(a.v[i][1], b.v[i][1]) /\ PyEq(a.v[i][2], b.v[i][2])   \* OrderedDict.__eq__ is order-sensitive
   ELSE IF a.k = "dict" THEN /\ Len(a.v) = Len(b.v)
                             /\ \A i \in 1..Len(a.v) : \E j \in 1..Len(b.v) : PyEq(a.v[i][1], b.v[j][1]) /\ PyEq(a.v[i][2], b.v[j][2])
   ELSE IF a.k = "ns" THEN /\ Len(a.v) = Len(b.v)
@@ -112,6 +117,7 @@ Same(a, b) ==
   ELSE IF a.k \in ScalarKinds \cup {"error", "unsure"} THEN a.v = b.v
   ELSE IF a.k \in {"list", "tuple"} THEN Len(a.v) = Len(b.v) /\ \A i \in 1..Len(a.v) : Same(a.v[i], b.v[i])
   ELSE IF a.k = "set" THEN Len(a.v) = Len(b.v) /\ \A i \in 1..Len(a.v) : \E j \in 1..Len(b.v) : Same(a.v[i], b.v[j])
+  ELSE IF a.k = "odict" THEN Len(a.v) = Len(b.v) /\ \A i \in 1..Len(a.v) : Same(a.v[i][1], b.v[i][1]) /\ Same(a.v[i][2], b.v[i][2])   \* a SEQUENCE of pairs: no dump format may reorder the keys
   ELSE IF a.k = "ns" THEN /\ Len(a.v) = Len(b.v)
                           /\ \A i \in 1..Len(a.v) : \E j \in 1..Len(b.v) : a.v[i][1] = b.v[j][1] /\ Same(a.v[i][2], b.v[j][2])
   ELSE /\ Len(a.v) = Len(b.v)
@@ -125,6 +131,7 @@ Approx(a, b) ==
   ELSE IF a.k \in {"error", "unsure"} THEN TRUE
   ELSE IF a.k \in {"list", "tuple"} THEN Len(a.v) = Len(b.v) /\ \A i \in 1..Len(a.v) : Approx(a.v[i], b.v[i])
   ELSE IF a.k = "set" THEN Len(a.v) = Len(b.v) /\ \A i \in 1..Len(a.v) : \E j \in 1..Len(b.v) : Approx(a.v[i], b.v[j])
+  ELSE IF a.k = "odict" THEN Len(a.v) = Len(b.v) /\ \A i \in 1..Len(a.v) : Approx(a.v[i][1], b.v[i][1]) /\ Approx(a.v[i][2], b.v[i][2])
   ELSE IF a.k = "ns" THEN /\ Len(a.v) = Len(b.v)
                           /\ \A i \in 1..Len(a.v) : \E j \in 1..Len(b.v) : a.v[i][1] = b.v[j][1] /\ Approx(a.v[i][2], b.v[j][2])
   ELSE /\ Len(a.v) = Len(b.v)
@@ -305,7 +312,7 @@ Hazards(fmt, x) ==
 (***************************************************************************)
 (* Alg: sort_subtypes_for_union (_typehints.py:1477-1489) - a STABLE sort  *)
 (***************************************************************************)
-IsSeqOrMap(t) == t.c \in {"list", "dict"}
+IsSeqOrMap(t) == t.c \in {"list", "dict", "odict"}                                  \* OrderedDict is one of mapping_origin_types (:169-178)
 SortSubtypes(ts, x) ==
   IF Len(ts) <= 1 THEN ts
   ELSE IF x.k = "str"
@@ -483,7 +490,7 @@ AdaptReg(name, x) ==
 RECURSIVE ValueFamilies(_)
 ValueFamilies(v) ==
   IF v.k \in SeqKinds THEN UNION {ValueFamilies(v.v[n]) : n \in 1..Len(v.v)}
-  ELSE IF v.k \in {"dict", "ns"} THEN UNION {ValueFamilies(v.v[n][2]) : n \in 1..Len(v.v)}
+  ELSE IF v.k \in {"dict", "ns", "odict"} THEN UNION {ValueFamilies(v.v[n][2]) : n \in 1..Len(v.v)}
   ELSE IF v.k = "reg" /\ RegName(v) = "Rdec" /\ ~DecExact(RegText(v)) THEN {"decimal-serialised-as-float"}
   ELSE {}
 
@@ -560,6 +567,13 @@ Adapt(t, x, orig, sd, li) ==
     [] t.c = "dc" -> AdaptDC(t, x, sd \/ li)                                     \* :1032-1050
     [] t.c = "reg" -> AdaptReg(t.p[1], x)                                        \* :800-805
     [] t.c = "any" -> AdaptAny(x)                                                \* :761-769
+    [] t.c = "odict" ->                                                         \* :905-934 as for a dict, then :972-973  OrderedDict(val): the order of the input
+         LET r == Adapt(TDict(t.p[1], t.p[2]), IF x.k = "odict" THEN DictV(x.v) ELSE x, orig, sd, FALSE) IN IF r.k = "dict" THEN ODictV(r.v) ELSE r
+    [] t.c = "setb" ->                                                          \* :853-863 without subtypehints: set(list(val)), members as they are
+         IF x.k \notin SeqKinds THEN ErrV("expected-tuple-or-set")
+         ELSE IF \E i \in 1..Len(x.v) : x.v[i].k \notin ScalarKinds THEN Unsure   \* an unhashable member: TypeError, not this spec's business
+         ELSE LET once == SelectSeq(Strict([i \in 1..Len(x.v) |-> i]), LAMBDA i : \A j \in 1..(i - 1) : ~PyEq(x.v[j], x.v[i]))
+              IN SetV(Strict([n \in 1..Len(once) |-> x.v[once[n]]]))
     [] t.c = "restr" ->                                                         \* restricted number / string types (typing.py:106-247, registered at :356):
          LET y == AdaptLeaf(T(t.p[2], << >>), x) IN IF IsErr(y) THEN y ELSE Unsure   \* the base type must fit; the restriction itself is C20's business
     [] OTHER -> Unsure
@@ -641,6 +655,8 @@ SerOk(t, v) ==
     [] t.c = "restr" -> v.k = t.p[2]                                            \* serializer = the base type (typing.py:356)
     [] t.c = "reg"   -> RegSerOk(t.p[1], v)                                     \* :802-803 str never raises, the other serializers do
     [] t.c = "any"   -> TRUE
+    [] t.c = "odict" -> v.k \in {"odict", "dict"} /\ \A i \in 1..Len(v.v) : SerOk(t.p[2], v.v[i][2])
+    [] t.c = "setb"  -> v.k \in SeqKinds
     [] OTHER -> FALSE
 Ser(t, v, o) ==
   CASE t.c \in {"str", "int", "bool", "none", "literal"} -> v
@@ -660,6 +676,8 @@ Ser(t, v, o) ==
          IN Lift(ys, DictV(Strict([i \in 1..Len(v.v) |-> <<ks[i], ys[i]>>])))
     [] t.c = "restr" -> v                                                       \* int(v) / float(v) / str(v) of a value of that base type
     [] t.c = "reg"   -> RegSer(t.p[1], v)                                       \* :802-803  registered_type.serializer(val)
+    [] t.c = "odict" -> Ser(TDict(t.p[1], t.p[2]), DictV(v.v), o)                 \* :972-973  dict(val): a plain dict in the SAME order
+    [] t.c = "setb"  -> ListV(v.v)                                                \* :853  list(val): NO order on the members is needed
     [] t.c = "any"   -> IF v.k = "enum" THEN Str(v.v) ELSE IF v.k = "reg" THEN RegSer(RegName(v), v) ELSE v   \* :763-765 by the value's own type
     [] t.c = "dc"    ->                                                         \* :1041  load_value(parser.dump(val, **dump_kwargs))
          LET inner == DumpFields(t.p, v, o) IN
@@ -700,7 +718,7 @@ NestedHazards(t, v) ==
                              THEN NestedHazards(ts[CHOOSE i \in 1..Len(ts) : SerOk(ts[i], v) /\ \A j \in 1..(i - 1) : ~SerOk(ts[j], v)], v) ELSE {}
          [] t.c \in {"list", "tuplee", "set"} -> UNION {NestedHazards(t.p[1], v.v[i]) : i \in 1..Len(v.v)}
          [] t.c = "tuple" -> UNION {NestedHazards(t.p[i], v.v[i]) : i \in 1..Len(v.v)}
-         [] t.c = "dict"  -> UNION {NestedHazards(t.p[2], v.v[i][2]) : i \in 1..Len(v.v)}
+         [] t.c \in {"dict", "odict"} -> UNION {NestedHazards(t.p[2], v.v[i][2]) : i \in 1..Len(v.v)}
          [] t.c = "dc"    -> LET inner == DumpFields(t.p, v, Opts(TRUE, FALSE)) IN IF Bad(inner) THEN {} ELSE Hazards(NestedFmt, inner)
          [] OTHER -> {}
 \* --print_config=comments sends the yaml text through a SECOND yaml library (ruyaml, YAML 1.2; _formatters.py:187-191,
@@ -710,7 +728,7 @@ NestedHazards(t, v) ==
 RECURSIVE SchemaDependent(_)
 SchemaDependent(v) ==
   IF v.k \in SeqKinds THEN \E n \in 1..Len(v.v) : SchemaDependent(v.v[n])
-  ELSE IF v.k = "dict" THEN \E n \in 1..Len(v.v) : SchemaDependent(v.v[n][1]) \/ SchemaDependent(v.v[n][2])
+  ELSE IF v.k \in {"dict", "odict"} THEN \E n \in 1..Len(v.v) : SchemaDependent(v.v[n][1]) \/ SchemaDependent(v.v[n][2])
   ELSE IF v.k = "ns" THEN \E n \in 1..Len(v.v) : SchemaDependent(v.v[n][2])
   ELSE IF v.k \in {"str", "enum"} THEN DumperTag(v.v) # "str" \/ Deviation(v.v) # "none"
   ELSE IF v.k = "reg" THEN LET w == RegSer(RegName(v), v) IN w.k = "float" \/ (w.k = "str" /\ (DumperTag(w.v) # "str" \/ Deviation(w.v) # "none"))
@@ -741,7 +759,7 @@ LeafHazards(t, v, fmt) ==
 RECURSIVE RawTree(_), HasSetVal(_), HasNsVal(_)
 HasNsVal(v) == IF v.k = "ns" THEN TRUE
                ELSE IF v.k \in SeqKinds THEN \E n \in 1..Len(v.v) : HasNsVal(v.v[n])
-               ELSE IF v.k = "dict" THEN \E n \in 1..Len(v.v) : HasNsVal(v.v[n][2])
+               ELSE IF v.k \in {"dict", "odict"} THEN \E n \in 1..Len(v.v) : HasNsVal(v.v[n][2])
                ELSE FALSE
 \* can the dumper of format fmt write the raw value?  yaml knows Namespace (_namespace.py:362 registers a representer with
 \* SafeDumper), json.dumps does not (TypeError); neither knows Enum members or values of registered types
@@ -753,7 +771,7 @@ RawTree(v) ==                                                                   
   ELSE v                                                                        \* Enum members, values of registered types, sets stay what they are
 HasSetVal(v) == IF v.k = "set" THEN TRUE
                 ELSE IF v.k \in {"list", "tuple"} THEN \E n \in 1..Len(v.v) : HasSetVal(v.v[n])
-                ELSE IF v.k \in {"dict", "ns"} THEN \E n \in 1..Len(v.v) : HasSetVal(v.v[n][2])
+                ELSE IF v.k \in {"dict", "ns", "odict"} THEN \E n \in 1..Len(v.v) : HasSetVal(v.v[n][2])
                 ELSE FALSE
 ReparseMultiLeaf(t, v, fmt, ideal) ==
   IF v.k # "dict" \/ HasSetVal(v) THEN Unsure                                   \* only a dict carries __path__; a set is written with the tag !!set: not modelled
